@@ -11,6 +11,7 @@ from ..ztyle import Style
 
 
 __from_json__class__: dict[str, type] = {}
+__from_json__classes__: dict[str, list[type]] = {}
 
 
 class Object:
@@ -32,6 +33,10 @@ class JSONBase(AsJSONMixin):
     def __init_subclass__(cls: type, **kwargs):
         super().__init_subclass__(**kwargs)
         __from_json__class__[cls.__name__] = cls
+        # note: classes are written to JSON by bare name, and a later class
+        #   may take the name of an earlier one (a node type called Token):
+        #   keep them all, so that a loader can ask for those of a package
+        __from_json__classes__.setdefault(cls.__name__, []).append(cls)
 
     @classmethod
     def __from_json__(cls: type[Self], data: Mapping[str, Any]) -> Self:
@@ -58,9 +63,21 @@ class JSONBase(AsJSONMixin):
         return new
 
 
-def fromjson(obj: Any) -> Any:
+def _class_for(typename: str, package: str | None) -> type | None:
+    if package:
+        for cls in reversed(__from_json__classes__.get(typename, ())):
+            module = cls.__module__
+            if module == package or module.startswith(package + '.'):
+                return cls
+    return __from_json__class__.get(typename)
+
+
+def fromjson(obj: Any, package: str | None = None) -> Any:
     """
     Transform serialized JSON into a Python object.
+
+    Classes are looked up by name; those defined in ``package``
+    are preferred over later ones with the same name.
     """
 
     def dfs(node: Any) -> Any:  # noqa: PLR0911
@@ -89,7 +106,7 @@ def fromjson(obj: Any) -> Any:
                 typename = map.get("__class__", None)
                 if not typename:
                     return mapped()
-                if (cls := __from_json__class__.get(typename)) is not None:
+                if (cls := _class_for(typename, package)) is not None:
                     assert issubclass(cls, JSONBase)
                     return cls.__from_json__(mapped())  # NOTE the raw contents
                 return asobj()
